@@ -158,7 +158,14 @@ func (pubKey PubKeySM2) isCompressed() bool {
 }
 
 // VerifyBytes 验证字节
-func (pubKey PubKeySM2) VerifyBytes(msg []byte, sig crypto.Signature) bool {
+func (pubKey PubKeySM2) VerifyBytes(msg []byte, sig crypto.Signature) (ok bool) {
+	// sm2.Decompress dereferences a nil square root when x is not on the curve: a public key
+	// that cannot be decompressed must be an invalid signature, not a crash of the caller
+	defer func() {
+		if r := recover(); r != nil {
+			ok = false
+		}
+	}()
 	var uid []byte
 	if wrap, ok := sig.(*SignatureS); ok {
 		sig = wrap.Signature
@@ -170,6 +177,10 @@ func (pubKey PubKeySM2) VerifyBytes(msg []byte, sig crypto.Signature) bool {
 	}
 
 	if !pubKey.isCompressed() {
+		return false
+	}
+	// only 0x02 / 0x03 are compressed-point prefixes (Decompress would accept any other value)
+	if pubKey[0] != 0x02 && pubKey[0] != 0x03 {
 		return false
 	}
 
